@@ -44,6 +44,8 @@ type Scenario struct {
 	Seq    uint64 `json:"seq,omitempty"`
 	// set56 / setmaria / ev-prev: the set as text (5.6: canonical)
 	Text string `json:"text,omitempty"`
+	// Big names a big set of ref.BigSet56 instead of spelling its text out
+	Big string `json:"big,omitempty"`
 	// events
 	Checksum  byte   `json:"checksum,omitempty"`
 	HeaderLen byte   `json:"header_len,omitempty"`
@@ -63,6 +65,32 @@ type Scenario struct {
 }
 
 func check(sc Scenario) *failure {
+	if sc.Big != "" {
+		m, err := ref.BigSet56(sc.Big)
+		if err != nil {
+			return &failure{"scenario", err.Error()}
+		}
+		sc.Text = ref.Text56(m)
+	}
+	f := checkKind(sc)
+	if f != nil {
+		f.Detail = clip(f.Detail)
+		if sc.Big != "" {
+			f.Detail = "big set " + sc.Big + ": " + f.Detail
+		}
+	}
+	return f
+}
+
+// clip shortens the detail of a failure on a big set (the texts run to 100s of KB).
+func clip(s string) string {
+	if len(s) <= 1500 {
+		return s
+	}
+	return fmt.Sprintf("%s ...[%d bytes]... %s", s[:900], len(s)-1400, s[len(s)-500:])
+}
+
+func checkKind(sc Scenario) *failure {
 	switch sc.Kind {
 	case "gtid56":
 		u, err := ref.ParseSIDText(sc.SID)
@@ -740,6 +768,23 @@ func run(r *chk.Run) {
 	}
 
 	phase("set56")
+	// 2b. big sets: the size swept over a lattice, the shape fixed ----------------------
+	bigs := ref.BigSetNames(r.Thorough())
+	r.Parallel(func(shard, n int) {
+		var e int64
+		for i := shard; i < len(bigs); i += n {
+			for _, sc := range []Scenario{{Kind: "set56", Big: bigs[i]}, {Kind: "ev-prev", Checksum: ref.ChecksumCRC32, Big: bigs[i]}, {Kind: "ev-prev", Checksum: ref.ChecksumOff, HeaderLen: 27, Big: bigs[i]}} {
+				e++
+				if f := check(sc); f != nil {
+					rp.report(sc, f)
+				}
+			}
+		}
+		evals.Add(e)
+	})
+	r.Set("set56_big", fmt.Sprintf("%d big sets (one server with 9 .. %s intervals in 4 shapes, 9 .. %s servers; sizes 2^k-1, 2^k, 2^k+1 and round numbers; texts up to several 100 KB): text round trip, SIDBlock vs reference writer, reader on both blocks, PREVIOUS_GTIDS event", len(bigs), map[bool]string{false: "6000", true: "65537"}[r.Thorough()], map[bool]string{false: "1025", true: "65537"}[r.Thorough()]))
+
+	phase("set56big")
 	// 3. GTID_EVENT -------------------------------------------------------------------
 	r.Parallel(func(shard, n int) {
 		var e int64
